@@ -16,6 +16,7 @@ pub mod pairprops;
 pub mod pathprops;
 pub mod timeprops;
 pub mod treeprops;
+pub mod xferprops;
 
 pub fn run_check(ctx: &Ctx, id: &str) -> i32 {
     match id {
@@ -23,6 +24,7 @@ pub fn run_check(ctx: &Ctx, id: &str) -> i32 {
         "C04" => handleprops::run_c04(ctx),
         "C14" => handleprops::run_c14(ctx),
         "C02" => pairprops::run_c02(ctx),
+        "C11" => xferprops::run_c11(ctx),
         "C19" => timeprops::run_c19(ctx),
         "C18" => embedprops::run_c18(ctx),
         "C06" => pathprops::run_c06(ctx),
